@@ -29,7 +29,7 @@ pub struct RCase {
     pub check_png: bool,
 }
 
-pub const COLOUR_PAIRS: [([u8; 4], [u8; 4], &str); 6] = [
+pub const COLOUR_PAIRS: [([u8; 4], [u8; 4], &str); 7] = [
     ([0, 0, 0, 255], [255, 255, 255, 255], "black on white"),
     ([255, 255, 255, 255], [0, 0, 0, 255], "white on black"),
     ([255, 0, 0, 255], [0, 0, 0, 0], "red on fully transparent"),
@@ -38,6 +38,9 @@ pub const COLOUR_PAIRS: [([u8; 4], [u8; 4], &str); 6] = [
     // anti-aliased edges of non-square shapes get partial alpha with channels that are neither 0 nor 255: the PNG
     // bytes must still decode to the pixmap (premultiplied / straight alpha conversions done once, not twice)
     ([30, 136, 229, 255], [0, 0, 0, 0], "azure on fully transparent"),
+    // a background that is neither opaque nor absent: light cells and the quiet zone show it as it is (nothing lies under
+    // it), within the rounding of one premultiply / demultiply round trip
+    ([0, 0, 0, 255], [128, 128, 128, 128], "black on half-transparent grey"),
 ];
 pub const NPAIRS: usize = COLOUR_PAIRS.len();
 
@@ -95,15 +98,24 @@ pub fn check_case2(c: &RCase, q: &QRCode, other: Option<&QRCode>) -> (Vec<(Strin
         // colours go through every route in turn: module_color with [u8; 4] arrays, Vec<u8>, &[u8], and the layer's own
         // colour given with shape_color (no module_color call at all)
         b.margin(c.margin);
+        // the square shape is also what a builder draws when no shape is named at all: every second square case leaves
+        // the shape() call out
+        let name_shape = !(c.shape == 0 && (c.v + c.margin / 2 + c.colours) % 2 == 0);
+        if name_shape && (c.v + c.margin + c.shape) % 4 != 3 {
+            b.shape(SHAPES[c.shape]);
+        }
         match (c.v + c.margin + c.shape) % 4 {
             0 => {
-                b.shape(SHAPES[c.shape]).module_color(fg).background_color(bg);
+                b.module_color(fg).background_color(bg);
             }
             1 => {
-                b.shape(SHAPES[c.shape]).module_color(fg.to_vec()).background_color(bg.to_vec());
+                b.module_color(fg.to_vec()).background_color(bg.to_vec());
             }
             2 => {
-                b.shape(SHAPES[c.shape]).module_color(&fg[..]).background_color(&bg[..]);
+                b.module_color(&fg[..]).background_color(&bg[..]);
+            }
+            _ if !name_shape => {
+                b.module_color(fg).background_color(bg);
             }
             _ => {
                 b.shape_color(SHAPES[c.shape], fg).background_color(bg);
@@ -170,6 +182,8 @@ pub fn check_case2(c: &RCase, q: &QRCode, other: Option<&QRCode>) -> (Vec<(Strin
         [rgba[i], rgba[i + 1], rgba[i + 2], rgba[i + 3]]
     };
     let same = |a: [u8; 4], b: [u8; 4]| a == b || (a[3] == 0 && b[3] == 0);
+    // against an expected colour with partial alpha: +-2 per channel (premultiplied storage)
+    let close = |a: [u8; 4], e: [u8; 4]| same(a, e) || (e[3] > 0 && e[3] < 255 && (0..4).all(|i| (a[i] as i32 - e[i] as i32).abs() <= 2));
     let exact_cells = c.shape == 0 && (w % s == 0);
     let k = w / s;
     'outer: for row in 0..s {
@@ -179,7 +193,7 @@ pub fn check_case2(c: &RCase, q: &QRCode, other: Option<&QRCode>) -> (Vec<(Strin
                 for dy in 0..k {
                     for dx in 0..k {
                         let p = px(col * k + dx, row * k + dy);
-                        if !same(p, e) {
+                        if !close(p, e) {
                             out.push(("cell-pixel".into(), format!("square shape at integer scale {}: pixel ({}, {}) of cell (col {}, row {}) is {:?}, expected {:?}", k, col * k + dx, row * k + dy, col, row, p, e)));
                             break 'outer;
                         }
@@ -189,7 +203,7 @@ pub fn check_case2(c: &RCase, q: &QRCode, other: Option<&QRCode>) -> (Vec<(Strin
                 let x = ((col as f64 + 0.5) * scale).floor() as usize;
                 let y = ((row as f64 + 0.5) * scale).floor() as usize;
                 let p = px(x.min(w - 1), y.min(h - 1));
-                if !same(p, e) {
+                if !close(p, e) {
                     let what = if e == fg { "dark module" } else if col < c.margin || row < c.margin || col >= c.margin + n || row >= c.margin + n { "quiet-zone cell" } else { "light module" };
                     out.push(("centre-pixel".into(), format!("{} shape, scale {:.3}: centre pixel ({}, {}) of {} (col {}, row {}) is {:?}, expected {:?}", SHAPE_NAMES[c.shape], scale, x, y, what, col, row, p, e)));
                     break 'outer;
@@ -295,8 +309,8 @@ pub fn replay(case: &Value) -> Result<Vec<(String, String)>, String> {
 
 pub fn run(ctx: &Ctx) -> Collector {
     let col = Collector::new("C13", "exploration");
-    col.set_rule("cases = (a) square shape at original scale: all 40 versions x margins {0,4} x 3 colour pairs, every pixel exact; (b) 6 shapes x versions x margins x fits {width kS, height kS for k in 4,5,8; (w,h) with w != h in both orders; non-integer scale kS+3} x 6 colour pairs {black/white, white/black, red on fully transparent, blue/yellow, slate/orange, azure on fully transparent} (quick: versions {1,2,7,40}, margins {0,4}, colour pair rotated per case, plus every version x every shape at 4 pixels per module; thorough: all 40 versions, margins {0,1,4}, full product); oracle: pixmap square with the requested side, centre pixel of every dark module = module colour, of every light module and quiet-zone cell = background (scale >= 4), every pixel of every cell for the square shape at integer scale, and to_bytes() decoded by an independent PNG reader (own inflate, CRC-32, Adler-32, unfilter) equals the de-multiplied pixmap, also on a builder that has rendered another symbol of the same size before; non-trivial = a pixmap was rendered; distinct = distinct pixel buffers");
-    col.assume("module colours opaque, background alpha 0 or 255: the expected pixel is the colour itself, no blending rule assumed");
+    col.set_rule("cases = (a) square shape at original scale: all 40 versions x margins {0,4} x 3 colour pairs, every pixel exact; (b) 6 shapes x versions x margins x fits {width kS, height kS for k in 4,5,8; (w,h) with w != h in both orders; non-integer scale kS+3} x 7 colour pairs {black/white, white/black, red on fully transparent, blue/yellow, slate/orange, azure on fully transparent, black on half-transparent grey}; the square shape is named in one half of its cases and left to the default in the other (quick: versions {1,2,7,40}, margins {0,4}, colour pair rotated per case, plus every version x every shape at 4 pixels per module; thorough: all 40 versions, margins {0,1,4}, full product); oracle: pixmap square with the requested side, centre pixel of every dark module = module colour, of every light module and quiet-zone cell = background (scale >= 4), every pixel of every cell for the square shape at integer scale, and to_bytes() decoded by an independent PNG reader (own inflate, CRC-32, Adler-32, unfilter) equals the de-multiplied pixmap, also on a builder that has rendered another symbol of the same size before; non-trivial = a pixmap was rendered; distinct = distinct pixel buffers");
+    col.assume("module colours opaque; background alpha 0 or 255 (the expected pixel is the colour itself), and one pair with a half-transparent background, whose light cells are expected to show that colour within +-2 per channel (nothing lies under the background); no other blending rule assumed");
     col.assume("resvg/usvg/tiny-skia/png are part of the subject as linked; fit sizes below 4 pixels per module are checked for size only (square shape at integer scale >= 1: every pixel)");
     let thorough = ctx.tier.thorough();
     let mut cases: Vec<RCase> = vec![];
@@ -381,7 +395,7 @@ pub fn run(ctx: &Ctx) -> Collector {
             }
         }
     });
-    col.space(json!({"name": "original scale", "cases": n_a, "what": "square shape, all 40 versions x margins {0,4} x 6 colour pairs, every pixel + PNG round trip", "exhaustive": true}));
+    col.space(json!({"name": "original scale", "cases": n_a, "what": "square shape, all 40 versions x margins {0,4} x 7 colour pairs, every pixel + PNG round trip", "exhaustive": true}));
     col.space(json!({"name": "shapes x fits", "cases": cases.len() - n_a, "what": format!("6 shapes x versions {:?} x margins {:?} x 9 fit requests x colour pairs (+ small integer fits for the square shape; quick: + all 40 versions x 6 shapes at 4 pixels per module)", vers, margins), "exhaustive": true}));
     col.sample(cases[0].to_json());
     col.sample(cases[n_a].to_json());
